@@ -83,6 +83,10 @@ pub struct View {
     pub rt_text: Option<Option<Lite>>,
     pub rt_text_noprefix: Option<Option<Lite>>,
     pub rt_json: Option<Option<Lite>>,
+    /// other routes through serde: a serde_json::Value, a reader, a JSON string with an escape
+    pub rt_json_value: Option<Option<Lite>>,
+    pub rt_json_reader: Option<Option<Lite>>,
+    pub rt_json_escaped: Option<Option<Lite>>,
 }
 
 pub fn fixed_hash<T: Hash>(t: &T) -> u64 {
@@ -248,6 +252,24 @@ pub fn inspect<K: EnrKey>(e: &Enr<K>, deep: bool) -> View {
             v.rt_json = guard("serde_json::from_str", || {
                 serde_json::from_str::<Enr<K>>(&j).ok().map(|d| lite(&d, e))
             });
+            v.rt_json_value = guard("serde_json::from_value", || {
+                serde_json::to_value(e)
+                    .ok()
+                    .and_then(|val| serde_json::from_value::<Enr<K>>(val).ok())
+                    .map(|d| lite(&d, e))
+            });
+            v.rt_json_reader = guard("serde_json::from_reader", || {
+                serde_json::from_reader::<_, Enr<K>>(j.as_bytes())
+                    .ok()
+                    .map(|d| lite(&d, e))
+            });
+            // the same JSON string spelled with an escape sequence
+            if let Some(rest) = j.strip_prefix("\"e") {
+                let esc = format!("\"\\u0065{rest}");
+                v.rt_json_escaped = guard("serde_json::from_str (escaped)", || {
+                    serde_json::from_str::<Enr<K>>(&esc).ok().map(|d| lite(&d, e))
+                });
+            }
         }
     }
     v
